@@ -244,7 +244,9 @@ def r8_4(prog, rep):
     sub2 = type(rep)(rep.prop)
     C09.r9_4(prog, sub2)
     for it in sub2.items:
-        if "visitLazyValue" in it["construct"] or "visitLazyVariable" in it["construct"] or "Variable.var_names" in it["construct"]:
+        # the set of used columns must be exact in both directions: a column that is not mentioned must not be selected
+        # (its missing values would drop rows), a mentioned one must not be forgotten
+        if True:
             it = dict(it)
             it["rule"] = "R8.4"
             rep.items.append(it)
